@@ -1,2 +1,600 @@
-(* WsProofs: lemmas for C16 (in progress) *)
-From Coq Require Import List.
+(* WsProofs: lemmas about the WebSocket models (C16). *)
+From Coq Require Import List Arith Lia Bool NArith.
+From NngV Require Import Base.ListX Base.Bytes Codec.Staged Codec.WsFrameModel Codec.WsMsgModel Codec.CodecSpec.
+Import ListNotations.
+Local Open Scope N_scope.
+
+(* ---- a sweep over all byte values, lifted to a universal statement ---- *)
+Lemma forall_below (n : nat) (P : N -> bool) :
+  forallb P (map N.of_nat (seq 0 n)) = true -> forall b, b < N.of_nat n -> P b = true.
+Proof.
+  intros H b Hb. rewrite forallb_forall in H. apply H.
+  apply in_map_iff. exists (N.to_nat b). split; [apply N2Nat.id|].
+  apply in_seq. lia.
+Qed.
+
+(* ---- masking ---- *)
+Lemma mask_from_involutive key : forall l i, mask_from i key (mask_from i key l) = l.
+Proof.
+  induction l as [|b l IH]; intros i; cbn [mask_from]; [reflexivity|].
+  rewrite IH. f_equal. rewrite N.lxor_assoc, N.lxor_nilpotent, N.lxor_0_r. reflexivity.
+Qed.
+Lemma mask_involutive_lemma key l : mask_bytes key (mask_bytes key l) = l.
+Proof. apply mask_from_involutive. Qed.
+
+Lemma mask_from_length key : forall l i, length (mask_from i key l) = length l.
+Proof. induction l; intros; cbn [mask_from length]; [reflexivity|]. now rewrite IHl. Qed.
+Lemma mask_bytes_length key l : length (mask_bytes key l) = length l.
+Proof. apply mask_from_length. Qed.
+
+Lemma succ_mod4 i : Nat.modulo (S (Nat.modulo i 4)) 4 = Nat.modulo (S i) 4.
+Proof.
+  rewrite <- (Nat.add_1_l (Nat.modulo i 4)), <- (Nat.add_1_l i).
+  rewrite Nat.add_mod_idemp_r by lia. reflexivity.
+Qed.
+
+Lemma mask_from_mod key : forall l i, mask_from (Nat.modulo i 4) key l = mask_from i key l.
+Proof.
+  destruct l as [|b l]; intros i; cbn [mask_from]; [reflexivity|].
+  rewrite Nat.mod_mod by lia. rewrite succ_mod4. reflexivity.
+Qed.
+
+Lemma mask_from_congr key l i j : Nat.modulo i 4 = Nat.modulo j 4 -> mask_from i key l = mask_from j key l.
+Proof. intros H. rewrite <- (mask_from_mod key l i), <- (mask_from_mod key l j), H. reflexivity. Qed.
+
+Lemma mask_from_app key : forall a b i,
+  mask_from i key (a ++ b) = mask_from i key a ++ mask_from (i + length a) key b.
+Proof.
+  induction a as [|x a IH]; intros b i; cbn [mask_from app length].
+  - now rewrite Nat.add_0_r.
+  - f_equal. rewrite IH. f_equal. apply mask_from_congr.
+    rewrite Nat.add_mod_idemp_l by lia. f_equal. lia.
+Qed.
+
+Lemma mask_from_add4 key l i k : mask_from (i + 4 * k) key l = mask_from i key l.
+Proof.
+  apply mask_from_congr. rewrite Nat.mul_comm, Nat.mod_add by lia. reflexivity.
+Qed.
+
+(* the stride loop: whole words of [w] bytes, w a multiple of four *)
+Lemma stride_spec key (w q : nat) : w = (4 * q)%nat -> (0 < q)%nat -> forall fuel l d r,
+  stride fuel w key l = (d, r) -> d ++ mask_from 0 key r = mask_from 0 key l.
+Proof.
+  intros Hw Hq. induction fuel as [|f IH]; intros l d r H; cbn [stride] in H.
+  - inversion H; subst. reflexivity.
+  - destruct (w <=? length l)%nat eqn:E.
+    + apply Nat.leb_le in E.
+      destruct (stride f w key (skipn w l)) as [d1 r1] eqn:R. inversion H; subst d r; clear H.
+      specialize (IH _ _ _ R). rewrite <- app_assoc, IH. unfold xor_word.
+      rewrite <- (firstn_skipn w l) at 3. rewrite mask_from_app.
+      rewrite firstn_length, Nat.min_l by exact E. cbn [Nat.add].
+      rewrite Hw. rewrite <- (mask_from_add4 key (skipn (4 * q) l) 0 q). reflexivity.
+    + inversion H; subst. reflexivity.
+Qed.
+
+Lemma mask_strided_eq key l : mask_strided key l = mask_bytes key l.
+Proof.
+  unfold mask_strided, mask_bytes.
+  destruct (stride (length l) 16 key l) as [d16 r16] eqn:R16.
+  destruct (stride (length r16) 8 key r16) as [d8 r8] eqn:R8.
+  destruct (stride (length r8) 4 key r8) as [d4 r4] eqn:R4.
+  pose proof (stride_spec key 16 4 eq_refl ltac:(lia) _ _ _ _ R16) as H16.
+  pose proof (stride_spec key 8 2 eq_refl ltac:(lia) _ _ _ _ R8) as H8.
+  pose proof (stride_spec key 4 1 eq_refl ltac:(lia) _ _ _ _ R4) as H4.
+  rewrite <- H16, <- H8, <- H4. reflexivity.
+Qed.
+
+(* ---- bit facts by sweep ---- *)
+Lemma op_bits : forall op, op < 128 ->
+  N.land op 127 = op /\ N.land op 128 = 0 /\ N.land (N.lor op 128) 127 = op /\ N.land (N.lor op 128) 128 = 128.
+Proof.
+  intros op H.
+  assert (Q: forallb (fun op => (N.land op 127 =? op) && (N.land op 128 =? 0) &&
+     (N.land (N.lor op 128) 127 =? op) && (N.land (N.lor op 128) 128 =? 128)) (map N.of_nat (seq 0 128)) = true)
+    by (vm_compute; reflexivity).
+  pose proof (forall_below 128 _ Q op H) as P.
+  cbv beta in P. rewrite !andb_true_iff, !N.eqb_eq in P. tauto.
+Qed.
+
+Lemma hd_op_final (op : N) (final : bool) : op < 128 ->
+  let b0 := if final then N.lor op 128 else op in hd_op b0 = op /\ hd_final b0 = final.
+Proof.
+  intros H. destruct (op_bits op H) as (A & B & C & D). unfold hd_op, hd_final.
+  destruct final; cbv zeta.
+  - rewrite C, D. split; reflexivity.
+  - rewrite A, B. split; reflexivity.
+Qed.
+
+Lemma land_65535 len : len < 65536 -> N.land len 65535 = len.
+Proof. intros H. change 65535 with (N.ones 16). rewrite N.land_ones. apply N.mod_small. exact H. Qed.
+Lemma land_127 len : len < 128 -> N.land len 127 = len.
+Proof. intros H. change 127 with (N.ones 7). rewrite N.land_ones. apply N.mod_small. exact H. Qed.
+
+Lemma b1_mask_bits : forall b1, b1 < 128 ->
+  N.land (N.lor b1 128) 127 = N.land b1 127 /\ negb (N.land (N.lor b1 128) 128 =? 0) = true /\
+  negb (N.land b1 128 =? 0) = false.
+Proof.
+  intros b H.
+  assert (Q: forallb (fun b => (N.land (N.lor b 128) 127 =? N.land b 127) &&
+     negb (N.land (N.lor b 128) 128 =? 0) && negb (negb (N.land b 128 =? 0))) (map N.of_nat (seq 0 128)) = true)
+    by (vm_compute; reflexivity).
+  pose proof (forall_below 128 _ Q b H) as P.
+  cbv beta in P. apply andb_true_iff in P. destruct P as [P P3]. apply andb_true_iff in P. destruct P as [P1 P2].
+  apply N.eqb_eq in P1. apply negb_true_iff in P3. auto.
+Qed.
+
+(* header of the sender = what the receiver reads back, for every length below 2^64 *)
+Definition hdr_decodes (h : list byte) (op : N) (final masked : bool) (len : N) (key : list byte) : Prop :=
+  exists h0 h1 ext,
+    h = h0 :: h1 :: ext /\ hd_op h0 = op /\ hd_final h0 = final /\ hd_masked h1 = masked /\
+    hd_len h1 ext = (len, true) /\ hd_hlen h1 = 2 + N.of_nat (length ext) /\
+    (masked = true -> hd_key h1 ext = key).
+
+Lemma ws_hdr_unmasked op final len : op < 128 -> len < 2 ^ 64 ->
+  hdr_decodes (ws_hdr op final len) op final false len [].
+Proof.
+  intros Hop Hlen. unfold ws_hdr, hdr_decodes.
+  destruct (hd_op_final op final Hop) as [Ho Hf]. cbv zeta in Ho, Hf.
+  destruct (len <? 126) eqn:E1.
+  - apply N.ltb_lt in E1. eexists _, _, []. split; [reflexivity|].
+    rewrite (land_127 len) by lia.
+    assert (L7: hd_len7 len = len) by (unfold hd_len7; apply land_127; lia).
+    assert (M: hd_masked len = false).
+    { destruct (b1_mask_bits len ltac:(lia)) as (_ & _ & M3). exact M3. }
+    repeat split; auto; try discriminate.
+    all: unfold hd_len, hd_hlen; rewrite ?M, ?L7;
+      (destruct (len =? 127) eqn:A; [apply N.eqb_eq in A; lia|]);
+      (destruct (len =? 126) eqn:B; [apply N.eqb_eq in B; lia|]); reflexivity.
+  - apply N.ltb_ge in E1. destruct (len <? 65536) eqn:E2.
+    + apply N.ltb_lt in E2. eexists _, 126, (be_enc 2 (N.land len 65535)). split; [reflexivity|].
+      rewrite land_65535 by exact E2.
+      repeat split; auto; try discriminate.
+      all: try (rewrite be_enc_length; reflexivity).
+      all: unfold hd_len; change (hd_len7 126) with 126; cbn [N.eqb Pos.eqb];
+        rewrite firstn_all2 by (rewrite be_enc_length; lia);
+        rewrite be_dec_enc_small by (simpl; lia);
+        replace (len <? 126) with false by (symmetry; apply N.ltb_ge; lia); reflexivity.
+    + apply N.ltb_ge in E2. eexists _, 127, (be_enc 8 len). split; [reflexivity|].
+      repeat split; auto; try discriminate.
+      all: try (rewrite be_enc_length; reflexivity).
+      all: unfold hd_len; change (hd_len7 127) with 127; cbn [N.eqb Pos.eqb];
+        rewrite firstn_all2 by (rewrite be_enc_length; lia);
+        rewrite be_dec_enc_small by (simpl; lia);
+        replace (len <? 65536) with false by (symmetry; apply N.ltb_ge; lia); reflexivity.
+Qed.
+
+Lemma ws_hdr_masked op final len key : op < 128 -> len < 2 ^ 64 -> length key = 4%nat ->
+  hdr_decodes (set_mask_bit (ws_hdr op final len) ++ key) op final true len key.
+Proof.
+  intros Hop Hlen Hk.
+  destruct (ws_hdr_unmasked op final len Hop Hlen) as (h0 & h1 & ext & Eh & Ho & Hf & Hm & Hl & Hh & _).
+  rewrite Eh. cbn [set_mask_bit app].
+  assert (B1: h1 < 128).
+  { unfold ws_hdr in Eh. destruct (len <? 126) eqn:E1.
+    - inversion Eh; subst. apply N.ltb_lt in E1. rewrite land_127; lia.
+    - destruct (len <? 65536); inversion Eh; subst; lia. }
+  destruct (b1_mask_bits h1 B1) as (M1 & M2 & M3).
+  exists h0, (N.lor h1 128), (ext ++ key). split; [reflexivity|].
+  assert (L7: hd_len7 (N.lor h1 128) = hd_len7 h1) by (unfold hd_len7; exact M1).
+  assert (Lext: (length ext = 0 \/ length ext = 2 \/ length ext = 8)%nat /\
+          (hd_len7 h1 =? 127) = (length ext =? 8)%nat /\ (hd_len7 h1 =? 126) = (length ext =? 2)%nat).
+  { unfold ws_hdr in Eh. destruct (len <? 126) eqn:E1.
+    - inversion Eh; subst. apply N.ltb_lt in E1. unfold hd_len7. rewrite land_127 by lia.
+      rewrite land_127 by lia. cbn [length].
+      destruct (len =? 127) eqn:A; [apply N.eqb_eq in A; lia|].
+      destruct (len =? 126) eqn:B; [apply N.eqb_eq in B; lia|]. auto.
+    - destruct (len <? 65536); inversion Eh; subst; rewrite be_enc_length; cbn; auto. }
+  destruct Lext as (Lc & L127 & L126).
+  repeat split; auto.
+  - unfold hd_len in *. rewrite L7.
+    destruct (hd_len7 h1 =? 127) eqn:A.
+    + symmetry in L127. apply Nat.eqb_eq in L127.
+      rewrite firstn_app_exact by (symmetry; exact L127).
+      rewrite firstn_all2 in Hl by lia. exact Hl.
+    + destruct (hd_len7 h1 =? 126) eqn:B.
+      * symmetry in L126. apply Nat.eqb_eq in L126.
+        rewrite firstn_app_exact by (symmetry; exact L126).
+        rewrite firstn_all2 in Hl by lia. exact Hl.
+      * exact Hl.
+  - unfold hd_hlen in *. rewrite L7. unfold hd_masked in *. rewrite M2.
+    rewrite M3 in Hh. rewrite app_length, Hk. lia.
+  - intros _. unfold hd_key. rewrite app_length, Hk.
+    replace (length ext + 4 - 4)%nat with (length ext) by lia.
+    apply skipn_app_exact. reflexivity.
+Qed.
+
+(* ---- the decoder stops for good after a failure ---- *)
+Lemma ws_fail_halt s code : w_stage (fst (ws_fail s code)) = SHalt.
+Proof. reflexivity. Qed.
+
+Lemma ws_run_halted cfg : forall fuel s buf, w_stage s = SHalt ->
+  run ws_state ws_event ws_want (ws_cb cfg) fuel s buf = (s, match fuel with O => buf | _ => [] end, []).
+Proof.
+  intros fuel s buf H. destruct fuel; cbn [run]; [reflexivity|].
+  unfold ws_want. rewrite H. reflexivity.
+Qed.
+
+Lemma ws_feed_halted cfg d input : w_stage (d_inner d) = SHalt ->
+  ws_feed cfg d input = (mkD (d_inner d) [], []).
+Proof.
+  intros H. unfold ws_feed, feed. rewrite ws_run_halted by exact H. reflexivity.
+Qed.
+
+(* ---- exact stages ---- *)
+Lemma run_exact cfg s x f :
+  ws_want s = N.of_nat (length x) -> (0 < length x)%nat -> (1 < f)%nat ->
+  run ws_state ws_event ws_want (ws_cb cfg) f s x =
+    let '(s1, e1) := ws_cb cfg s x in (s1, [], e1).
+Proof.
+  intros Hw Hx Hf. destruct f as [|f]; [lia|]. rewrite run_S.
+  replace (ws_want s =? 0) with false by (symmetry; apply N.eqb_neq; lia).
+  replace (N.of_nat (length x) <? ws_want s) with false by (symmetry; apply N.ltb_ge; lia).
+  cbv zeta. rewrite Hw, Nat2N.id, firstn_all, skipn_all.
+  destruct (ws_cb cfg s x) as [s1 e1].
+  destruct f as [|f]; [lia|]. rewrite run_S.
+  destruct (ws_want s1 =? 0) eqn:E; [rewrite app_nil_r; reflexivity|].
+  replace (N.of_nat (length (@nil byte)) <? ws_want s1) with true.
+  - rewrite app_nil_r. reflexivity.
+  - symmetry. apply N.ltb_lt. apply N.eqb_neq in E. simpl. lia.
+Qed.
+
+Lemma ws_feed_exact cfg s x :
+  ws_want s = N.of_nat (length x) -> (0 < length x)%nat ->
+  ws_feed cfg (mkD s []) x = let '(s1, e1) := ws_cb cfg s x in (mkD s1 [], e1).
+Proof.
+  intros Hw Hx. unfold ws_feed, feed. cbn [d_acc d_inner app].
+  rewrite run_exact by (auto; lia). destruct (ws_cb cfg s x). reflexivity.
+Qed.
+
+Lemma ws_feed_app cfg d a b :
+  ws_feed cfg d (a ++ b) =
+    let '(d1, e1) := ws_feed cfg d a in let '(d2, e2) := ws_feed cfg d1 b in (d2, e1 ++ e2).
+Proof. apply feed_app. Qed.
+
+(* a complete header (2 bytes + rest) read in the SHead stage *)
+Lemma ws_feed_header cfg s h0 h1 ext : w_stage s = SHead ->
+  hd_hlen h1 = 2 + N.of_nat (length ext) ->
+  ws_feed cfg (mkD s []) (h0 :: h1 :: ext) =
+    let '(s1, e1) := ws_header_done cfg s h0 h1 ext in (mkD s1 [], e1).
+Proof.
+  intros Hs Hh. destruct ext as [|x ext].
+  - rewrite ws_feed_exact; [|unfold ws_want; rewrite Hs; reflexivity|simpl; lia].
+    unfold ws_cb. rewrite Hs. replace (hd_hlen h1 =? 2) with true by (symmetry; apply N.eqb_eq; simpl in Hh; lia).
+    reflexivity.
+  - change (h0 :: h1 :: x :: ext) with ([h0; h1] ++ (x :: ext)). rewrite ws_feed_app.
+    rewrite ws_feed_exact; [|unfold ws_want; rewrite Hs; reflexivity|simpl; lia].
+    unfold ws_cb at 1. rewrite Hs.
+    replace (hd_hlen h1 =? 2) with false by (symmetry; apply N.eqb_neq; cbn [length] in Hh; lia).
+    rewrite ws_feed_exact; [| unfold ws_want; cbn [w_stage]; lia | simpl; lia].
+    unfold ws_cb. cbn [w_stage].
+    assert (E: ws_header_done cfg (mkWs (SExt h0 h1) (w_inmsg s) (w_rxq s)) h0 h1 (x :: ext) =
+               ws_header_done cfg s h0 h1 (x :: ext)).
+    { unfold ws_header_done, ws_fail, ws_frame_cb, ws_fail. cbn [w_inmsg w_rxq]. reflexivity. }
+    rewrite E. destruct (ws_header_done cfg s h0 h1 (x :: ext)). reflexivity.
+Qed.
+
+(* ---- rule enforcement: each check fails the connection with the code computed ---- *)
+Definition is_fail (r : ws_state * list ws_event) (s : ws_state) (code : N) : Prop := r = ws_fail s code.
+
+Lemma reject_nonminimal cfg s h0 h1 ext :
+  snd (hd_len h1 ext) = false -> is_fail (ws_header_done cfg s h0 h1 ext) s WS_CLOSE_PROTOCOL_ERR.
+Proof. unfold is_fail, ws_header_done. destruct (hd_len h1 ext) as [len m]. cbn [snd]. intros ->. reflexivity. Qed.
+
+Lemma reject_maxframe cfg s h0 h1 ext len :
+  hd_len h1 ext = (len, true) -> 0 < c_maxframe cfg -> c_maxframe cfg < len ->
+  is_fail (ws_header_done cfg s h0 h1 ext) s WS_CLOSE_TOO_BIG.
+Proof.
+  unfold is_fail, ws_header_done. intros -> H0 H1. cbn [negb].
+  apply N.ltb_lt in H0, H1. rewrite H0, H1. reflexivity.
+Qed.
+
+Lemma reject_recvmax cfg s h0 h1 ext len :
+  hd_len h1 ext = (len, true) -> (c_maxframe cfg <? len) && (0 <? c_maxframe cfg) = false ->
+  c_isstream cfg = false -> 0 < c_recvmax cfg -> c_recvmax cfg < len + sum_len (w_rxq s) ->
+  is_fail (ws_header_done cfg s h0 h1 ext) s WS_CLOSE_TOO_BIG.
+Proof.
+  unfold is_fail, ws_header_done. intros -> H0 Hs H1 H2. cbn [negb]. rewrite H0, Hs.
+  apply N.ltb_lt in H1, H2. rewrite H1, H2. reflexivity.
+Qed.
+
+Lemma reject_mask cfg s h0 h1 ext len :
+  hd_len h1 ext = (len, true) -> (c_maxframe cfg <? len) && (0 <? c_maxframe cfg) = false ->
+  negb (c_isstream cfg) && (0 <? c_recvmax cfg) && (c_recvmax cfg <? len + sum_len (w_rxq s)) = false ->
+  hd_masked h1 = negb (c_server cfg) ->
+  is_fail (ws_header_done cfg s h0 h1 ext) s WS_CLOSE_PROTOCOL_ERR.
+Proof.
+  unfold is_fail, ws_header_done. intros -> H0 H1 Hm. cbn [negb]. rewrite H0, H1, Hm.
+  destruct (c_server cfg); reflexivity.
+Qed.
+
+Definition known_op (op : N) : bool := existsb (N.eqb op) [WS_CONT; WS_TEXT; WS_BINARY; WS_CLOSE; WS_PING; WS_PONG].
+
+Lemma reject_unknown_op cfg s op final payload :
+  known_op op = false -> is_fail (ws_frame_cb cfg s op final payload) s WS_CLOSE_PROTOCOL_ERR.
+Proof.
+  unfold known_op, is_fail, ws_frame_cb. cbn [existsb]. rewrite !orb_false_iff.
+  intros (A & B & C & D & E & F & _). rewrite A, B, C, D, E, F. reflexivity.
+Qed.
+
+(* reserved bits are part of the opcode the decoder sees *)
+Lemma rsv_is_unknown_op : forall h0, h0 < 256 -> negb (N.land h0 112 =? 0) = true -> known_op (hd_op h0) = false.
+Proof.
+  intros h0 H.
+  assert (Q: forallb (fun h0 => implb (negb (N.land h0 112 =? 0)) (negb (known_op (hd_op h0))))
+               (map N.of_nat (seq 0 256)) = true) by (vm_compute; reflexivity).
+  pose proof (forall_below 256 _ Q h0 H) as P. cbv beta in P.
+  intros R. rewrite R in P. cbn [implb] in P. apply negb_true_iff in P. exact P.
+Qed.
+
+Lemma reject_cont_without_start cfg s final payload :
+  w_inmsg s = false -> is_fail (ws_frame_cb cfg s WS_CONT final payload) s WS_CLOSE_PROTOCOL_ERR.
+Proof. unfold is_fail, ws_frame_cb. intros ->. reflexivity. Qed.
+
+Lemma reject_data_in_message cfg s final payload :
+  w_inmsg s = true -> is_fail (ws_frame_cb cfg s WS_BINARY final payload) s WS_CLOSE_PROTOCOL_ERR.
+Proof. unfold is_fail, ws_frame_cb. intros ->. reflexivity. Qed.
+
+Lemma reject_text cfg s final payload :
+  c_recv_text cfg = false -> is_fail (ws_frame_cb cfg s WS_TEXT final payload) s WS_CLOSE_UNSUPP_FORMAT.
+Proof. unfold is_fail, ws_frame_cb. intros ->. reflexivity. Qed.
+
+Lemma reject_big_control cfg s op final payload :
+  op = WS_PING \/ op = WS_PONG -> 125 < N.of_nat (length payload) ->
+  is_fail (ws_frame_cb cfg s op final payload) s WS_CLOSE_PROTOCOL_ERR.
+Proof.
+  unfold is_fail, ws_frame_cb. intros [-> | ->] H; apply N.ltb_lt in H; cbn; rewrite H; reflexivity.
+Qed.
+
+(* a failure is a CloseConn event (with a close frame carrying the code), delivers nothing, and halts *)
+Lemma ws_fail_shape s code :
+  snd (ws_fail s code) = [ETx WS_CLOSE (be_enc 2 code); EClose code] /\ w_stage (fst (ws_fail s code)) = SHalt.
+Proof. split; reflexivity. Qed.
+
+Lemma ws_no_delivery_after_halt cfg : forall pieces d,
+  w_stage (d_inner d) = SHalt -> snd (ws_feed_all cfg d pieces) = [].
+Proof.
+  induction pieces as [|p ps IH]; intros d H; [reflexivity|].
+  unfold ws_feed_all in *. cbn [feed_all].
+  change (feed ws_state ws_event ws_want (ws_cb cfg) d p) with (ws_feed cfg d p).
+  rewrite ws_feed_halted by exact H.
+  specialize (IH (mkD (d_inner d) []) H).
+  destruct (feed_all ws_state ws_event ws_want (ws_cb cfg) (mkD (d_inner d) []) ps) as [d2 e2].
+  cbn [snd] in *. exact IH.
+Qed.
+
+(* ---- sender side: the fragments of a message carry exactly its bytes ---- *)
+Definition fr_payload (f : N * bool * list byte) : list byte := snd f.
+Definition fr_final (f : N * bool * list byte) : bool := snd (fst f).
+Definition fr_op (f : N * bool * list byte) : N := fst (fst f).
+
+Lemma ws_fragment_concat send_text fragsize : forall fuel count data,
+  (length data < fuel)%nat ->
+  concat (map fr_payload (ws_fragment fuel false send_text fragsize count data)) = data.
+Proof.
+  induction fuel as [|f IH]; intros count data Hf; [lia|].
+  cbn [ws_fragment].
+  destruct ((fragsize <? N.of_nat (length data)) && (0 <? fragsize)) eqn:E.
+  - apply andb_true_iff in E. destruct E as [E1 E2]. apply N.ltb_lt in E1, E2.
+    cbn [map concat fr_payload snd]. rewrite IH.
+    + apply firstn_skipn.
+    + rewrite skipn_length. lia.
+  - cbn [map concat fr_payload snd]. apply app_nil_r.
+Qed.
+
+(* shape: every fragment but the last is non-final and has exactly fragsize
+   bytes; the first carries the data opcode, the others CONT *)
+Lemma ws_fragment_shape send_text fragsize : forall fuel count data,
+  (length data < fuel)%nat -> 0 < fragsize ->
+  let frs := ws_fragment fuel false send_text fragsize count data in
+  frs <> [] /\ fr_final (last frs (0, true, [])) = true /\
+  Forall (fun f => fr_final f = false -> N.of_nat (length (fr_payload f)) = fragsize) frs /\
+  Forall (fun f => N.of_nat (length (fr_payload f)) <= fragsize) frs /\
+  fr_op (hd (0, true, []) frs) = (if count =? 0 then (if send_text then WS_TEXT else WS_BINARY) else WS_CONT) /\
+  Forall (fun f => fr_op f = WS_CONT) (tl frs).
+Proof.
+  induction fuel as [|f IH]; intros count data Hf Hp; [lia|].
+  cbn [ws_fragment]. cbv zeta.
+  destruct ((fragsize <? N.of_nat (length data)) && (0 <? fragsize)) eqn:E.
+  - apply andb_true_iff in E. destruct E as [E1 E2]. apply N.ltb_lt in E1, E2.
+    assert (L: (length (skipn (N.to_nat fragsize) data) < f)%nat) by (rewrite skipn_length; lia).
+    destruct (IH (count + fragsize) (skipn (N.to_nat fragsize) data) L Hp) as (A & B & C & D & F & G).
+    cbv zeta in *.
+    set (rest := ws_fragment f false send_text fragsize (count + fragsize) (skipn (N.to_nat fragsize) data)) in *.
+    assert (FL: N.of_nat (length (firstn (N.to_nat fragsize) data)) = fragsize).
+    { rewrite firstn_length, Nat.min_l by lia. apply N2Nat.id. }
+    refine (conj _ (conj _ (conj _ (conj _ (conj _ _))))).
+    + discriminate.
+    + destruct rest as [|r0 rest']; [congruence|]. exact B.
+    + constructor; [intros _; exact FL|exact C].
+    + constructor; [cbn [fr_payload snd]; lia|exact D].
+    + reflexivity.
+    + cbn [tl]. destruct rest as [|r0 rest']; [constructor|].
+      constructor.
+      * cbn [hd] in F. replace (count + fragsize =? 0) with false in F by (symmetry; apply N.eqb_neq; lia). exact F.
+      * exact G.
+  - refine (conj _ (conj _ (conj _ (conj _ (conj _ _))))).
+    + discriminate.
+    + reflexivity.
+    + constructor; [discriminate|constructor].
+    + constructor; [|constructor]. cbn [fr_payload snd].
+      apply andb_false_iff in E. destruct E as [E|E]; [apply N.ltb_ge in E; exact E|apply N.ltb_ge in E; lia].
+    + reflexivity.
+    + constructor.
+Qed.
+
+(* ---- a whole encoded frame through the decoder ---- *)
+Lemma ws_frame_cb_stage cfg s st op final payload :
+  ws_frame_cb cfg (mkWs st (w_inmsg s) (w_rxq s)) op final payload = ws_frame_cb cfg s op final payload.
+Proof. reflexivity. Qed.
+
+Lemma ws_feed_nil cfg s : ws_feed cfg (mkD s []) [] = (mkD s [], []).
+Proof.
+  unfold ws_feed, feed. cbn [d_acc d_inner app length]. rewrite run_S.
+  destruct (ws_want s =? 0) eqn:E; [reflexivity|].
+  replace (N.of_nat (length (@nil byte)) <? ws_want s) with true; [reflexivity|].
+  symmetry. apply N.ltb_lt. apply N.eqb_neq in E. simpl. lia.
+Qed.
+
+Definition frame_admitted (cfg : ws_cfg) (s : ws_state) (len : N) : Prop :=
+  (c_maxframe cfg <? len) && (0 <? c_maxframe cfg) = false /\
+  negb (c_isstream cfg) && (0 <? c_recvmax cfg) && (c_recvmax cfg <? len + sum_len (w_rxq s)) = false /\
+  (len <? 126) || (len <=? c_allocmax cfg) = true.
+
+Lemma ws_header_done_ok cfg s h0 h1 ext len key :
+  hd_len h1 ext = (len, true) -> frame_admitted cfg s len -> hd_masked h1 = c_server cfg ->
+  (hd_masked h1 = true -> hd_key h1 ext = key) ->
+  ws_header_done cfg s h0 h1 ext =
+    if len =? 0 then ws_frame_cb cfg s (hd_op h0) (hd_final h0) []
+    else (mkWs (SPayload h0 h1 (if hd_masked h1 then key else []) len) (w_inmsg s) (w_rxq s), []).
+Proof.
+  intros Hl (A & B & C) Hm Hk. unfold ws_header_done. rewrite Hl. cbn [negb]. rewrite A, B, Hm.
+  destruct (c_server cfg) eqn:S; cbn [negb andb].
+  - rewrite Hk by (rewrite Hm; reflexivity). rewrite C. reflexivity.
+  - rewrite C. reflexivity.
+Qed.
+
+Lemma ws_feed_frame cfg s key op final payload :
+  w_stage s = SHead -> op < 128 -> length key = 4%nat ->
+  N.of_nat (length payload) < 2 ^ 64 ->
+  frame_admitted cfg s (N.of_nat (length payload)) ->
+  ws_feed cfg (mkD s []) (ws_encode (negb (c_server cfg)) key op final payload) =
+    let '(s1, e1) := ws_frame_cb cfg s op final payload in (mkD s1 [], e1).
+Proof.
+  intros Hs Hop Hk Hlen Hadm. set (len := N.of_nat (length payload)) in *.
+  unfold ws_encode. fold len.
+  assert (HD: exists h0 h1 ext data,
+     (if negb (c_server cfg) then ws_hdr op final len ++ payload
+      else set_mask_bit (ws_hdr op final len) ++ firstn 4 key ++ mask_bytes key payload) = (h0 :: h1 :: ext) ++ data /\
+     hd_op h0 = op /\ hd_final h0 = final /\ hd_masked h1 = c_server cfg /\ hd_len h1 ext = (len, true) /\
+     hd_hlen h1 = 2 + N.of_nat (length ext) /\ (hd_masked h1 = true -> hd_key h1 ext = key) /\
+     length data = length payload /\ (if hd_masked h1 then mask_bytes key data else data) = payload).
+  { destruct (c_server cfg); cbn [negb].
+    - destruct (ws_hdr_masked op final len key Hop Hlen Hk) as (h0 & h1 & ext & E & A & B & C & D & F & G).
+      exists h0, h1, ext, (mask_bytes key payload).
+      rewrite firstn_all2 by lia. rewrite app_assoc, E. rewrite C.
+      repeat split; auto; try apply mask_bytes_length; try apply mask_involutive_lemma.
+    - destruct (ws_hdr_unmasked op final len Hop Hlen) as (h0 & h1 & ext & E & A & B & C & D & F & G).
+      exists h0, h1, ext, payload. rewrite E, C. repeat split; auto; try (intros; discriminate). }
+  destruct HD as (h0 & h1 & ext & data & E & A & B & C & D & F & G & Ld & Ud).
+  rewrite E, ws_feed_app, (ws_feed_header cfg s h0 h1 ext Hs F).
+  rewrite (ws_header_done_ok cfg s h0 h1 ext len key D Hadm C G).
+  rewrite A, B.
+  destruct (len =? 0) eqn:Z.
+  - apply N.eqb_eq in Z.
+    assert (Hp: payload = []) by (destruct payload; [reflexivity|unfold len in Z; simpl in Z; lia]).
+    assert (Hd: data = []) by (destruct data; [reflexivity|rewrite Hp in Ld; simpl in Ld; lia]).
+    clear Ud. rewrite Hp, Hd. destruct (ws_frame_cb cfg s op final []) as [s1 e1].
+    rewrite ws_feed_nil, app_nil_r. reflexivity.
+  - apply N.eqb_neq in Z.
+    rewrite ws_feed_exact.
+    + unfold ws_cb. cbn [w_stage].
+      assert (U2: (if hd_masked h1 then mask_bytes (if hd_masked h1 then key else []) data else data) = payload).
+      { destruct (hd_masked h1); exact Ud. }
+      rewrite U2, ws_frame_cb_stage, A, B.
+      destruct (ws_frame_cb cfg s op final payload). reflexivity.
+    + unfold ws_want. cbn [w_stage]. rewrite Ld. reflexivity.
+    + rewrite Ld. unfold len in Z. lia.
+Qed.
+
+(* ---- the encoder always chooses the shortest length form, and masks iff it is a client ---- *)
+Definition minimal_form (l7 len : N) : Prop :=
+  (l7 = len /\ len < 126) \/ (l7 = 126 /\ 126 <= len < 65536) \/ (l7 = 127 /\ 65536 <= len).
+
+Lemma ws_hdr_minimal op final len : len < 2 ^ 64 ->
+  exists h0 h1 ext, ws_hdr op final len = h0 :: h1 :: ext /\ h1 < 128 /\ minimal_form (hd_len7 h1) len /\
+    length ext = (if len <? 126 then 0%nat else if len <? 65536 then 2%nat else 8%nat).
+Proof.
+  intros H. unfold ws_hdr, minimal_form.
+  destruct (len <? 126) eqn:E1.
+  - apply N.ltb_lt in E1. eexists _, _, []. split; [reflexivity|]. rewrite land_127 by lia.
+    unfold hd_len7. rewrite land_127 by lia. split; [lia|]. split; [left; split; [reflexivity|exact E1]|reflexivity].
+  - apply N.ltb_ge in E1. destruct (len <? 65536) eqn:E2.
+    + apply N.ltb_lt in E2. eexists _, 126, _. split; [reflexivity|]. rewrite be_enc_length.
+      split; [lia|]. split; [|reflexivity]. right; left. split; [reflexivity|lia].
+    + apply N.ltb_ge in E2. eexists _, 127, _. split; [reflexivity|]. rewrite be_enc_length.
+      split; [lia|]. split; [|reflexivity]. right; right. split; [reflexivity|lia].
+Qed.
+
+Lemma ws_encode_minimal_lemma server key op final payload :
+  N.of_nat (length payload) < 2 ^ 64 ->
+  exists h0 h1 rest, ws_encode server key op final payload = h0 :: h1 :: rest /\
+    hd_masked h1 = negb server /\ minimal_form (hd_len7 h1) (N.of_nat (length payload)).
+Proof.
+  intros H. destruct (ws_hdr_minimal op final _ H) as (h0 & h1 & ext & E & B & M & _).
+  destruct (b1_mask_bits h1 B) as (M1 & M2 & M3).
+  unfold ws_encode. rewrite E. destruct server; cbn [negb set_mask_bit app].
+  - exists h0, h1, (ext ++ payload). repeat split; auto.
+  - exists h0, (N.lor h1 128), (ext ++ firstn 4 key ++ mask_bytes key payload).
+    split; [reflexivity|]. split; [exact M2|]. unfold hd_len7 in *. rewrite M1. exact M.
+Qed.
+
+(* ---- reassembly at the level of complete frames (message mode) ---- *)
+Definition is_small_control (f : N * bool * list byte) : bool :=
+  ((fr_op f =? WS_PING) || (fr_op f =? WS_PONG)) && (N.of_nat (length (fr_payload f)) <=? 125).
+
+Fixpoint ws_frames_run (cfg : ws_cfg) (s : ws_state) (frs : list (N * bool * list byte)) : ws_state * list ws_event :=
+  match frs with
+  | [] => (s, [])
+  | f :: r =>
+      match w_stage s with
+      | SHalt => (s, [])
+      | _ => let '(s1, e1) := ws_frame_cb cfg s (fr_op f) (fr_final f) (fr_payload f) in
+             let '(s2, e2) := ws_frames_run cfg s1 r in (s2, e1 ++ e2)
+      end
+  end.
+Definition deliveries (e : list ws_event) : list (list byte) :=
+  flat_map (fun x => match x with EDeliver m => [m] | _ => [] end) e.
+
+(* the continuation frames of one message with small control frames anywhere between them *)
+Inductive msg_tail : list (N * bool * list byte) -> list (list byte) -> Prop :=
+| MT_last p : msg_tail [(WS_CONT, true, p)] [p]
+| MT_cont p frs ps : msg_tail frs ps -> msg_tail ((WS_CONT, false, p) :: frs) (p :: ps)
+| MT_ctl f frs ps : is_small_control f = true -> msg_tail frs ps -> msg_tail (f :: frs) ps.
+
+Lemma ws_tail_reassembles cfg : c_isstream cfg = false -> forall frs ps, msg_tail frs ps ->
+  forall st q, st <> SHalt ->
+  let '(s1, e1) := ws_frames_run cfg (mkWs st true q) frs in
+  deliveries e1 = [concat (q ++ ps)] /\ w_inmsg s1 = false /\ w_rxq s1 = [] /\ w_stage s1 = SHead.
+Proof.
+  intros Hm frs ps H. induction H as [p | p frs ps H IH | f frs ps Hc H IH]; intros st q Hst.
+  - cbn [ws_frames_run w_stage].
+    assert (K: ws_frame_cb cfg (mkWs st true q) WS_CONT true p =
+               (mkWs SHead false [], [EDeliver (concat (q ++ [p]))])).
+    { unfold ws_frame_cb, ws_read_finish. cbn. rewrite Hm.
+      destruct (q ++ [p]) eqn:E; [destruct q; discriminate|reflexivity]. }
+    destruct st; try congruence; cbn [fr_op fr_final fr_payload fst snd]; rewrite K; cbn; auto.
+  - cbn [ws_frames_run w_stage].
+    assert (K: ws_frame_cb cfg (mkWs st true q) WS_CONT false p = (mkWs SHead true (q ++ [p]), [])).
+    { unfold ws_frame_cb, ws_read_finish. cbn. rewrite Hm. reflexivity. }
+    destruct st; try congruence; cbn [fr_op fr_final fr_payload fst snd]; rewrite K;
+      specialize (IH SHead (q ++ [p]) ltac:(discriminate));
+      destruct (ws_frames_run cfg (mkWs SHead true (q ++ [p])) frs) as [s2 e2];
+      cbn [app]; rewrite <- app_assoc in IH; exact IH.
+  - cbn [ws_frames_run w_stage].
+    assert (K: exists e, ws_frame_cb cfg (mkWs st true q) (fr_op f) (fr_final f) (fr_payload f) = (mkWs SHead true q, e)
+                         /\ deliveries e = []).
+    { unfold is_small_control in Hc. apply andb_true_iff in Hc. destruct Hc as [Ho Hl].
+      apply N.leb_le in Hl. unfold ws_frame_cb.
+      apply orb_true_iff in Ho. destruct Ho as [Ho|Ho]; apply N.eqb_eq in Ho; rewrite Ho; cbn;
+        replace (125 <? N.of_nat (length (fr_payload f))) with false by (symmetry; apply N.ltb_ge; lia);
+        eexists; split; reflexivity. }
+    destruct K as (e & K & Ke).
+    destruct st; try congruence; rewrite K;
+      specialize (IH SHead q ltac:(discriminate));
+      destruct (ws_frames_run cfg (mkWs SHead true q) frs) as [s2 e2];
+      unfold deliveries in *; rewrite flat_map_app, Ke; exact IH.
+Qed.
+
+(* a whole message: a first data frame, then the tail; or a single final frame *)
+Lemma ws_message_reassembles cfg p frs ps : c_isstream cfg = false -> msg_tail frs ps ->
+  let '(s1, e1) := ws_frames_run cfg ws_init ((WS_BINARY, false, p) :: frs) in
+  deliveries e1 = [p ++ concat ps] /\ w_inmsg s1 = false /\ w_rxq s1 = [].
+Proof.
+  intros Hm H. unfold ws_init. cbn [ws_frames_run w_stage]. cbn [fr_op fr_final fr_payload fst snd].
+  assert (K: ws_frame_cb cfg (mkWs SHead false []) WS_BINARY false p = (mkWs SHead true [p], [])).
+  { unfold ws_frame_cb, ws_read_finish. cbn. rewrite Hm. reflexivity. }
+  rewrite K.
+  pose proof (ws_tail_reassembles cfg Hm frs ps H SHead [p] ltac:(discriminate)) as T.
+  destruct (ws_frames_run cfg (mkWs SHead true [p]) frs) as [s2 e2].
+  cbn [app]. destruct T as (A & B & C & _). rewrite A. cbn [concat app]. auto.
+Qed.
